@@ -568,6 +568,21 @@ func runBlockReconn(sc *BlockCase, res *BlockResult) {
 	rec := w.Rec
 	root, rootCancel := context.WithTimeout(context.Background(), 8*time.Second)
 	defer rootCancel()
+	var cancelAtActive context.CancelFunc
+	connReturned := make(chan struct{})
+	if sc.L == "connectCancelledAtActive" {
+		// Connect's context is cancelled at the very moment its first handshake has succeeded (inside the Active callback),
+		// and the callback returns only after Connect has given up: the loop finds nobody waiting for its result
+		w.OnActive = func(g int) {
+			if g == 1 && cancelAtActive != nil {
+				cancelAtActive()
+				select {
+				case <-connReturned:
+				case <-time.After(time.Second):
+				}
+			}
+		}
+	}
 	cli, err := mqtt.NewReconnectClient(w.Dialer(), mqtt.WithReconnectWait(2*time.Millisecond, 5*time.Millisecond))
 	if err != nil {
 		res.Note = err.Error()
@@ -581,9 +596,11 @@ func runBlockReconn(sc *BlockCase, res *BlockResult) {
 		cctx, ccancel = context.WithCancel(root)
 	}
 	defer ccancel()
+	cancelAtActive = ccancel
 	connRet := make(chan callRet, 1)
 	go func() {
 		_, err := cli.Connect(cctx, "blocking")
+		close(connReturned)
 		connRet <- callRet{err, time.Now()}
 	}()
 	nd := func() int {
@@ -604,6 +621,14 @@ func runBlockReconn(sc *BlockCase, res *BlockResult) {
 		select {
 		case r := <-connRet:
 			res.Steered = r.err == nil
+		case <-time.After(2 * time.Second):
+		}
+	case "connectCancelledAtActive":
+		select {
+		case r := <-connRet:
+			// Connect gave up (context error) or, if it won the race, succeeded: either way the connection exists
+			_ = r
+			res.Steered = waitFor(func() bool { return countWrites(rec, "CONNECT") >= 1 }, time.Second)
 		case <-time.After(2 * time.Second):
 		}
 	}
